@@ -507,6 +507,11 @@ func floatAffines() []universe.Affine {
 			out = append(out, universe.Affine{A: sc * co, B: -sc * si, C: sc * si, D: sc * co, TX: tr, TY: -tr / 3, Name: fmt.Sprintf("rot0.3·%g+%g", sc, tr)})
 		}
 	}
+	// far from unit magnitude (squares and cubes of ordinates still representable): an absolute
+	// tolerance or constant hidden in the library shows up here and nowhere else
+	for _, sc := range []float64{1e-100, 1e100} {
+		out = append(out, universe.Affine{A: sc * co, B: -sc * si, C: sc * si, D: sc * co, Name: fmt.Sprintf("rot0.3·%g", sc)})
+	}
 	return out
 }
 
